@@ -72,6 +72,8 @@ mod state_machine_handler;
 mod timer;
 mod type_config;
 mod utils;
+#[cfg(d_engine_verif)]
+pub mod verif;
 
 pub mod storage;
 
